@@ -143,6 +143,53 @@ let guard_mode () =
            | None -> print_endline "NONE"))
     done with End_of_file -> ())
 
+(* front-end elaboration and combinator semantics (Frontends.v); one s-expression per line *)
+let fe_mode () =
+  let rec gx = function
+    | L [A "atom"; n] -> GxAtom (nat n) | L [A "not"; a] -> GxNot (gx a)
+    | L [A "and"; a; b] -> GxAnd (gx a, gx b) | L [A "or"; a; b] -> GxOr (gx a, gx b) | x -> bad "gx" x in
+  let ogx = function A "nil" -> None | x -> Some (gx x) in
+  let onat = function A "nil" -> None | x -> Some (nat x) in
+  let rec show_gx = function
+    | GxAtom n -> Printf.sprintf "(atom %d)" (int_of_nat n) | GxNot a -> "(not " ^ show_gx a ^ ")"
+    | GxAnd (a, b) -> "(and " ^ show_gx a ^ " " ^ show_gx b ^ ")" | GxOr (a, b) -> "(or " ^ show_gx a ^ " " ^ show_gx b ^ ")" in
+  let show_on = function None -> "nil" | Some n -> string_of_int (int_of_nat n) in
+  let tag_name = function TagRow -> "row" | TagARow -> "a_row" | TagGRow -> "g_row" | Tag_Row -> "_row"
+                        | TagIRow -> "irow" | TagAIRow -> "a_irow" | TagGIRow -> "g_irow" | Tag_IRow -> "_irow" in
+  let show_row r =
+    Printf.printf "ROW %d %s %s (%s) %s\nTAG %s\n" (int_of_nat r.f_src) (show_on r.f_ev) (show_on r.f_tgt)
+      (String.concat " " (List.map (fun a -> string_of_int (int_of_nat a)) r.f_acts))
+      (match r.f_guard with None -> "nil" | Some g -> show_gx g) (tag_name (frow_tag r)) in
+  (try while true do
+      let line = input_line stdin in
+      match parse line with
+      | [L [A "euml"; A form; s; e; t; g; acts]] ->
+        let r = (match form with
+            | "first" -> ETgtFirst ((match onat t with Some x -> x | None -> O), nat s, onat e, ogx g, nats acts)
+            | "last" -> ETgtLast (nat s, onat e, ogx g, nats acts, (match onat t with Some x -> x | None -> O))
+            | _ -> EInternal (nat s, onat e, ogx g, nats acts)) in
+        show_row (elab_euml r)
+      | [L [A "basictag"; A k]] ->
+        let z = O in
+        let b = (match k with
+            | "row" -> B_row (z, z, z, z, z) | "a_row" -> B_a_row (z, z, z, z) | "g_row" -> B_g_row (z, z, z, z) | "_row" -> B__row (z, z, z)
+            | "irow" -> B_irow (z, z, z, z) | "a_irow" -> B_a_irow (z, z, z) | "g_irow" -> B_g_irow (z, z, z) | "_irow" -> B__irow (z, z)
+            | "row2" -> B_row2 (z, z, z, None, z, None, z) | "a_row2" -> B_a_row2 (z, z, z, None, z) | "g_row2" -> B_g_row2 (z, z, z, None, z)
+            | "_row2" -> B__row2 (z, z, z) | "irow2" | "internal" -> B_irow2 (z, z, None, z, None, z)
+            | "a_irow2" | "a_internal" -> B_a_irow2 (z, z, None, z) | "g_irow2" | "g_internal" -> B_g_irow2 (z, z, None, z)
+            | "_internal" -> B__irow (z, z) | s -> failwith ("basictag " ^ s)) in
+        Printf.printf "TAG %s\n" (tag_name (basic_tag b))
+      | [L [A "run"; g; acts; v]] ->
+        let vv = int_of_string (match v with A a -> a | _ -> "0") in
+        let valu n = (vv lsr (int_of_nat n)) land 1 = 1 in
+        let r = { f_src = O; f_ev = None; f_tgt = None; f_acts = nats acts; f_guard = ogx g } in
+        let (b, order) = frow_guard valu r in
+        Printf.printf "RUN %d %d :%s /%s\n" vv (if b then 1 else 0)
+          (String.concat "" (List.map (fun a -> " " ^ string_of_int (int_of_nat a)) order))
+          (String.concat "" (List.map (fun a -> " " ^ string_of_int (int_of_nat a)) (frow_action r)))
+      | _ -> print_endline "FE-PARSE-ERROR"
+    done with End_of_file -> ())
+
 let store_mode () =
   (* input: "TYPE name size align nothrow trivial" lines, then operations; output mirrors store_probe *)
   let types = ref [] in
@@ -178,6 +225,7 @@ let () =
   if Sys.argv.(1) = "puml" then (puml_mode (); exit 0);
   if Sys.argv.(1) = "guard" then (guard_mode (); exit 0);
   if Sys.argv.(1) = "store" then (store_mode (); exit 0);
+  if Sys.argv.(1) = "fe" then (fe_mode (); exit 0);
   if Sys.argv.(1) = "ids" then begin
     (match parse (read_all stdin) with
      | m :: _ -> print_ids (Sys.argv.(2) = "mp11") [] (mdef m).md_root
